@@ -31,6 +31,14 @@ Inductive generated_name (T:tables) : string -> dfield -> Prop :=
 | GenName key idxs d :
     find_field T key = Some d -> positive_idxs idxs -> generated_name T (render_name key idxs) d.
 
+(* what the index helper must return: 0 for a plain name, the index for one level, the tuple otherwise *)
+Definition expected_idx (idxs:list Z) : idx_res :=
+  match idxs with
+  | [] => IdxInt 0
+  | [i] => IdxInt (Z.to_N i)
+  | _ => IdxTuple (map Z.to_N idxs)
+  end.
+
 (* ---------- C19 table checker: descriptions are unambiguous ---------- *)
 Fixpoint strip_prefix (p s:string) : option string :=
   match p with
